@@ -194,6 +194,8 @@ func c19CompileReal(pattern string) (*regexp.Regexp, error) {
 		pattern = strings.ReplaceAll(pattern, `\*`, fmt.Sprintf(`[^%c]*`, filepath.Separator))
 		pattern = strings.ReplaceAll(pattern, `\?`, fmt.Sprintf(`[^%c]?`, filepath.Separator))
 		pattern = "^" + pattern + "$"
+	} else {
+		pattern = pattern[1:] // regular expression
 	}
 	return regexp.Compile(pattern)
 }
@@ -435,7 +437,7 @@ func c19Oracle(v *c19Inv, tree cliTree, dirs map[string]bool) (fates map[string]
 			dst = filepath.Join(v.Output, r)
 		}
 		if _, dup := fates[dst]; dup {
-			return nil, false, false // two sources for one destination: known finding K-C19-2, no statement
+			return nil, true, true // two sources for one destination: rejected (regression of K-C19-2)
 		}
 		if s.minify {
 			fates[dst] = c19Fate{Srcs: []string{s.src}, Mime: mimeOf(s.src)}
@@ -489,6 +491,9 @@ func c19GenTree(rng *h.RNG) cliTree {
 		}
 		if !clash {
 			t[p] = content
+			if rng.Chance(12) {
+				t[p+".bak"] = c20Content(rng, ext, 10+rng.Intn(80)) // an unrelated file that has the backup's name
+			}
 		}
 	}
 	return t
@@ -519,7 +524,7 @@ func c19GenInv(rng *h.RNG, t cliTree) *c19Inv {
 		return s
 	}
 	pats := []string{"*.css", "*.js", "*.html", "a*", "**/sub/**", "in/*", "**", "*", "in/sub/*.js", "~\\.css$", "~^in/a", "?.css", "**/*.json"}
-	switch rng.Intn(19) {
+	switch rng.Intn(21) {
 	case 0:
 		return &c19Inv{Shape: "file-to-stdout", Inputs: []string{file}}
 	case 1:
@@ -616,6 +621,16 @@ func c19GenInv(rng *h.RNG, t cliTree) *c19Inv {
 		}
 	case 15:
 		return &c19Inv{Shape: "type-on-dir", Inputs: []string{inDir}, Output: "out/", Recursive: true, Type: []string{"css", "js"}[rng.Intn(2)], Hidden: rng.Chance(20)}
+	case 19, 20:
+		// regressions of K-C20-1 / K-C19-1: an input spelled <dst>.bak, or an existing <dst>.bak next to an in-place run
+		bakOf := c19Pick(rng, t, func(p string) bool { _, ok := t[p+".bak"]; return ok && known(p) })
+		if bakOf == "" {
+			return &c19Inv{Shape: "file-in-place", Inputs: []string{file}, Output: file}
+		}
+		if rng.Bool() {
+			return &c19Inv{Shape: "bak-input", Inputs: []string{bakOf + ".bak"}, Output: bakOf, Type: strings.TrimPrefix(filepath.Ext(bakOf), ".")}
+		}
+		return &c19Inv{Shape: "bak-exists-in-place", Inputs: []string{bakOf}, Output: bakOf}
 	case 18:
 		return &c19Inv{Shape: "dot-output", Inputs: []string{file}, Output: "."}
 	}
@@ -1042,26 +1057,6 @@ func init() {
 				}
 				return o
 			}(), []byte(",")))
-			// known finding K-C19-2 (two tasks, one destination): the result depends on the worker schedule
-			dsts := map[string]int{}
-			collide := false
-			for _, t := range tasks {
-				if j := strings.Index(t, " -> "); j >= 0 {
-					d := strings.Fields(t[j+4:] + " ")[0]
-					if d != "root=" && d != "" {
-						dsts[d]++
-						if dsts[d] > 1 {
-							collide = true
-						}
-					}
-				}
-			}
-			// K-C19-1: a pre-existing <dst>.bak; K-C20-1: an input spelled <dst>.bak — not generated (no .bak names)
-			if collide {
-				c.R.ExcludedKnown++
-				st.Tag("excluded=K-C19-2")
-				continue
-			}
 			cfg := "model tasks: " + strings.Join(tasks, " ; ")
 			if string(items[0]) != fmt.Sprint(cs.run.Exit) {
 				addDiff(h.Finding{Stage: st.Name, Kind: "diff", What: "exit status", Input: cs.key, Config: cfg, Impl: fmt.Sprintf("%d stderr=%q", cs.run.Exit, cs.run.Stderr), Model: string(items[0])})
@@ -1076,18 +1071,6 @@ func init() {
 			dirSet := map[string]bool{}
 			for _, d := range cs.dirs {
 				dirSet[d] = true
-			}
-			tilde := false
-			for _, m := range v.Match {
-				tilde = tilde || strings.HasPrefix(m, "~")
-			}
-			for _, f := range v.Filters {
-				tilde = tilde || strings.HasPrefix(f.Pat, "~")
-			}
-			if tilde {
-				c.R.ExcludedKnown++
-				st.Tag("oracle-excluded=K-C19-3")
-				continue
 			}
 			fates, wantErr, known := c19Oracle(v, cs.tree, dirSet)
 			if !known {
@@ -1107,6 +1090,16 @@ func init() {
 			want := cs.tree.clone()
 			anyFail := false
 			for dst, f := range fates {
+				refused := false
+				if _, bakThere := cs.tree[dst+".bak"]; bakThere && f.Mime != "" { // (a sync copy of a file onto itself is a no-op)
+					for _, s := range f.Srcs {
+						refused = refused || s == dst
+					}
+				}
+				if refused {
+					anyFail = true // regression of K-C19-1 / K-C20-2: nothing is touched, the task fails
+					continue
+				}
 				var parts [][]byte
 				for _, s := range f.Srcs {
 					parts = append(parts, cs.tree[s])
@@ -1128,6 +1121,30 @@ func init() {
 			}
 			if (cs.run.Exit != 0) != anyFail {
 				c.R.Add(h.Finding{Stage: st.Name, Kind: "fail", What: fmt.Sprintf("oracle: exit status %d but minifier failure = %v", cs.run.Exit, anyFail), Input: cs.key, Impl: string(cs.run.Stderr)})
+			}
+		}
+		st.End()
+
+		// ---- regression corpus: the commands of the fixed findings (K-C20-1/2, K-C19-1..4, write-error exit status) ----
+		st = c.R.StartStage("regress", "the formerly failing commands of the fixed findings must give the corrected result (exit status and tree); non-trivial = always")
+		for _, g := range c19Regress {
+			run, err := runCLI(bin, g.tree, nil, nil, g.args, nil, nil, false)
+			if err != nil {
+				return err
+			}
+			key := g.id + ": minify " + strings.Join(g.args, " ") + "   in tree {" + treeStr(g.tree) + "}"
+			st.Count(key, true)
+			want := g.tree.clone()
+			for p, v := range g.after {
+				if v == "\x00absent" {
+					delete(want, p)
+				} else {
+					want[p] = []byte(v)
+				}
+			}
+			if ok, why := treeEq(want, run.Tree); !ok || run.Exit != g.exit {
+				c.R.Add(h.Finding{Stage: st.Name, Kind: "fail", What: "regression of " + g.id + ": " + why, Input: key,
+					Impl: fmt.Sprintf("exit %d, tree after: %s", run.Exit, treeStr(run.Tree)), Model: fmt.Sprintf("expected exit %d, tree: %s", g.exit, treeStr(want))})
 			}
 		}
 		st.End()
@@ -1174,6 +1191,28 @@ func init() {
 		_ = thorough
 		return nil
 	})
+}
+
+type c19Reg struct {
+	id    string
+	args  []string
+	tree  cliTree
+	exit  int
+	after map[string]string // path → content after the run ("\x00absent": must not exist); other files unchanged
+}
+
+var c19Regress = []c19Reg{
+	{"K-C20-1", []string{"-q", "--type=css", "-o", "a.css", "a.css.bak"}, cliTree{"a.css.bak": []byte("b { color : blue ; }\n")}, 0,
+		map[string]string{"a.css": "b{color:blue}"}},
+	{"K-C20-1 (stdout)", []string{"-q", "--type=css", ".bak"}, cliTree{".bak": []byte("b { }")}, 0, nil},
+	{"K-C20-2", []string{"-q", "--type=css", "-b", "-o", "a.css", "a.css", "a.css.bak"}, cliTree{"a.css": []byte("a{color:red}"), "a.css.bak": []byte("b{color:blue}")}, 1, nil},
+	{"K-C19-1", []string{"-q", "-o", "a.css", "a.css"}, cliTree{"a.css": []byte("a { color : red ; }\n"), "a.css.bak": []byte("PRECIOUS\n")}, 1, nil},
+	{"K-C19-2", []string{"-q", "-o", "out/", "a/x.css", "b/x.css"}, cliTree{"a/x.css": []byte("a { color : red ; }\n"), "b/x.css": []byte("b { color : blue ; }\n")}, 1, nil},
+	{"K-C19-3", []string{"-r", "--exclude=~\\.js$", "-q", "-o", "out/", "in/"}, cliTree{"in/a.css": []byte("a { color : red ; }\n"), "in/b.js": []byte("var x = 1 ;\n")}, 0,
+		map[string]string{"out/a.css": "a{color:red}"}},
+	{"K-C19-4", []string{"-q", "-o", "$PWD/a.css", "a.css"}, cliTree{"a.css": []byte("a { color : red ; }\n")}, 0,
+		map[string]string{"a.css": "a{color:red}"}},
+	{"write-error-exit", []string{"-q", "-o", "/dev/full", "a.css"}, cliTree{"a.css": []byte("a { color : red ; }\n")}, 1, nil},
 }
 
 // c19WalkLess orders paths like fs.WalkDir visits them (component-wise byte order).
